@@ -160,6 +160,8 @@ type c07Backend struct {
 	mu   sync.Mutex
 	seen []c07Seen
 	raw  []byte // scripted response (complete raw bytes); the connection is closed afterwards
+	seq  [][]byte // scripted responses by arrival order (overrides raw), counted from base
+	base int
 	wg   sync.WaitGroup
 	live int32 // connections being served
 }
@@ -207,13 +209,21 @@ func (b *c07Backend) serve(c net.Conn) {
 	body, kind, declared, complete := c07ReadBody(br, &h, false, 0)
 	b.mu.Lock()
 	b.seen = append(b.seen, c07Seen{Line: h.Line, Headers: h.Headers, Body: body, Kind: kind, Declared: declared, Complete: complete})
+	raw := b.raw
+	if n := len(b.seq); n > 0 {
+		k := len(b.seen) - 1 - b.base
+		if k >= n {
+			k = n - 1
+		}
+		if k < 0 {
+			k = 0
+		}
+		raw = b.seq[k]
+	}
 	b.mu.Unlock()
 	if !complete {
 		return
 	}
-	b.mu.Lock()
-	raw := b.raw
-	b.mu.Unlock()
 	c.Write(raw)
 	if tc, ok := c.(*net.TCPConn); ok {
 		tc.CloseWrite()
@@ -229,6 +239,14 @@ func (b *c07Backend) Addr() string { return b.ln.Addr().String() }
 func (b *c07Backend) SetRaw(raw []byte) {
 	b.mu.Lock()
 	b.raw = raw
+	b.mu.Unlock()
+}
+
+// SetRawSeq scripts the answers to the next requests in arrival order (the last one
+// repeats): a backend that fails the first attempt and answers the retry.
+func (b *c07Backend) SetRawSeq(seq [][]byte) {
+	b.mu.Lock()
+	b.seq, b.base = seq, len(b.seen)
 	b.mu.Unlock()
 }
 
